@@ -47,6 +47,11 @@ bool Rpc::initialize(Proto *proto, int timeout_sec)
 {
     using namespace std::placeholders;
 
+    //! 注意：TimeoutMonitor::cleanup() 会清除回调，所以每次 initialize() 都要重新设置，
+    //!       否则 cleanup() 之后再 initialize() 的 Rpc 永远不会报超时
+    request_timeout_.setCallback(std::bind(&Rpc::onRequestTimeout, this, _1));
+    respond_timeout_.setCallback(std::bind(&Rpc::onRespondTimeout, this, _1));
+
     request_timeout_.initialize(std::chrono::seconds(1), timeout_sec);
     respond_timeout_.initialize(std::chrono::seconds(1), timeout_sec);
 
